@@ -22,6 +22,15 @@ import (
 
 const VerifDir = "/verif"
 
+// OutDir is where evidence/ and replays/ are written: /verif, or VERIF_OUT when a
+// tree other than /repo is being checked (seeded changes in scratch worktrees).
+func OutDir() string {
+	if d := os.Getenv("VERIF_OUT"); d != "" {
+		return d
+	}
+	return VerifDir
+}
+
 // Violation is one failing case.
 type Violation struct {
 	Class   string      `json:"class"`
@@ -618,7 +627,7 @@ func (r *Run) finish() {
 	}
 	exit := 0
 	if r.Replay == "" {
-		os.RemoveAll(filepath.Join(VerifDir, "replays", r.ID))
+		os.RemoveAll(filepath.Join(OutDir(), "replays", r.ID))
 	}
 	seenClass := map[string]bool{}
 	for i, v := range unknown {
@@ -627,7 +636,7 @@ func (r *Run) finish() {
 			continue
 		}
 		seenClass[v.Class] = true
-		dir := filepath.Join(VerifDir, "replays", r.ID)
+		dir := filepath.Join(OutDir(), "replays", r.ID)
 		os.MkdirAll(dir, 0755)
 		h := sha1.Sum([]byte(v.Class))
 		path := filepath.Join(dir, fmt.Sprintf("%d-%s.json", i, hex.EncodeToString(h[:4])))
@@ -686,9 +695,9 @@ func (r *Run) finish() {
 		"coverage": cov, "assumptions": append([]string{}, r.assumptions...), "wall_s": wall,
 		"violations": len(unknown),
 	}
-	os.MkdirAll(filepath.Join(VerifDir, "evidence"), 0755)
+	os.MkdirAll(filepath.Join(OutDir(), "evidence"), 0755)
 	b, _ := json.MarshalIndent(ev, "", " ")
-	if err := os.WriteFile(filepath.Join(VerifDir, "evidence", r.ID+".json"), b, 0644); err != nil {
+	if err := os.WriteFile(filepath.Join(OutDir(), "evidence", r.ID+".json"), b, 0644); err != nil {
 		fmt.Println("INFRA-ERROR cannot write evidence:", err)
 		os.Exit(2)
 	}
